@@ -49,7 +49,7 @@ enc_case = st.fixed_dictionaries({
     "d": gen.scalar_d(), "n": st.one_of(st.integers(1, 255), st.sampled_from([1, 2, 31, 32, 33, 63, 64, 65, 127, 128, 254, 255])),
     "seed": st.integers(0, 1 << 32), "pat": st.sampled_from([0, 0, 0, 1, 2]),
     "iface": st.sampled_from(["encrypt", "do_encrypt", "fixlen", "do_fixlen", "ctx", "ctx_reset"]),
-    "ptsize": st.sampled_from([68, 69, 70]), "k": _k_spec(), "reject_first": st.sampled_from(["none", "none", "ge_n", "zero"]),
+    "ptsize": st.sampled_from([68, 69, 70]), "k": _k_spec(), "reject_first": st.sampled_from(["none", "none", "ge_n", "zero", "eq_n", "eq_n", "max"]),
     "cuts": st.lists(st.integers(0, 255), max_size=3), "dec": st.sampled_from(["decrypt", "do_decrypt", "ctx"])})
 
 
@@ -107,7 +107,8 @@ def encrypt(case, ctx):
                       "rej:" + case["reject_first"]], ident=case, sample=case)
     pubkey = key_in(None, pub)
     privkey = key_in(d, pub)
-    pre = {"ge_n": (M.N + 9).to_bytes(32, "little"), "zero": bytes(32)}.get(case["reject_first"], b"")
+    # a first draw outside [1, n-1] has to be drawn again: n + 9, 0, exactly n, 2^256 - 1
+    pre = {"ge_n": (M.N + 9).to_bytes(32, "little"), "zero": bytes(32), "eq_n": M.N.to_bytes(32, "little"), "max": b"\xff" * 32}.get(case["reject_first"], b"")
     sh.stream(case["seed"], pre + k.to_bytes(32, "little"))
     ders = []
     scripted = True
